@@ -13,9 +13,11 @@ EXTENDS Numbering, Json, IOUtils, SequencesExt
 \* are not pre-evaluated by TLC at start-up, so only the selected family is ever built):
 \*   B.n   items (sprites / scripts / table slots / subs / timelines / instances)
 \*   B.e   ANM entries
+\*   B.es  ANM entries for layouts of at most 2 sprites / scripts (cheap, so it may exceed B.e: this is where
+\*         entries that own nothing sit *between* entries that own something)
 \*   B.all every name sequence (TRUE), or one representative per renaming class (FALSE)
 \*   B.nums how many explicit-number options for ANM scripts; for MSG: 1 = fewer defaults / table_len options
-Bounds(u) == [n |-> atoi(IOEnv.MAXN), e |-> atoi(IOEnv.MAXE), all |-> IOEnv.NAMES = "all", nums |-> atoi(IOEnv.NUMS)]
+Bounds(u) == [n |-> atoi(IOEnv.MAXN), e |-> atoi(IOEnv.MAXE), es |-> atoi(IOEnv.MAXE_SMALL), all |-> IOEnv.NAMES = "all", nums |-> atoi(IOEnv.NUMS)]
 
 \* ------------------------------------------------------------ combinatorics
 Sum(s) == LET RECURSIVE S(_) S(n) == IF n = 0 THEN 0 ELSE S(n - 1) + s[n] IN S(Len(s))
@@ -32,6 +34,7 @@ NamePatterns(B, n) == IF B.all THEN [1..n -> 1..3]
                       ELSE RGS(n) \cup {p \in [1..n -> 1..3] : Distinct(p)}     \* + every order of distinct names
 NamesDistinctWithin(entries) == \A k \in DOMAIN entries : Distinct([i \in DOMAIN entries[k] |-> entries[k][i].name])
 
+EBound(B, n) == IF n <= 2 /\ B.es > B.e THEN B.es ELSE B.e
 Case(fam, lay, exp) == [fam |-> fam, lay |-> lay, exp |-> exp]
 
 \* ------------------------------------------------------------- anm_sprites
@@ -44,8 +47,8 @@ IdOpts == <<NoId, Lit(0), Lit(2), Lit(5), APlus1>>
 SpriteFlats(B, n) == { Tup([i \in 1..n |-> [name |-> SpritePool[nm[i]], id |-> IdOpts[ic[i]]]]) :
                       nm \in NamePatterns(B, n), ic \in [1..n -> 1..Len(IdOpts)] }
 SpriteEntries(B) ==
-    { en \in UNION { { SplitBy(flat, sz) : flat \in SpriteFlats(B, n), sz \in Compositions(n, e) } :
-                     n \in 0..B.n, e \in 1..B.e } : NamesDistinctWithin(en) }
+    { en \in UNION { UNION { { SplitBy(flat, sz) : flat \in SpriteFlats(B, n), sz \in Compositions(n, e) } :
+                             e \in 1..EBound(B, n) } : n \in 0..B.n } : NamesDistinctWithin(en) }
 SpriteNames(en) == Dedup(LET f == Flatten(en) IN [i \in DOMAIN f |-> f[i].name])
 SpriteCases(B) ==
     { Case("anm_sprites", [entries |-> en, uses |-> SpriteNames(en)],
@@ -62,7 +65,8 @@ NumOpts(B) == SubSeq(<<-1, 7, 0, 3>>, 1, B.nums)
 ScriptFlats(B, n) == { Tup([i \in 1..n |-> [name |-> ScriptPool[nm[i]], num |-> NumOpts(B)[nc[i]]]]) :
                       nm \in NamePatterns(B, n), nc \in [1..n -> 1..Len(NumOpts(B))] }
 ScriptEntries(B) ==
-    UNION { { SplitBy(flat, sz) : flat \in ScriptFlats(B, n), sz \in Compositions(n, e) } : n \in 1..B.n, e \in 1..B.e }
+    UNION { UNION { { SplitBy(flat, sz) : flat \in ScriptFlats(B, n), sz \in Compositions(n, e) } : e \in 1..EBound(B, n) } :
+            n \in 1..B.n }
 ScriptNames(en) == Dedup(LET f == Flatten(en) IN [i \in DOMAIN f |-> f[i].name])
 ScriptCases(B) ==
     { Case("anm_scripts", [entries |-> en, uses |-> ScriptNames(en)],
